@@ -202,6 +202,16 @@ theorem cache_invariant (ops : List Op) (s : State) (hs : CacheOK s)
       simp only [List.all_eq_true, Bool.and_eq_true] at ht
       simp [(ht r (row?_mem _ _ _ hr).1).1]
 
+/-- non-vacuity of `seeded_ops_leave_global_rng`: `read_noise`, `rule07_dark_current` and `power_spectrum` calls in a row leave the
+global generator cell where it was -/
+example :
+    let a : Op := { fn := "detector.read_noise", bind := [("img", 0)], res := some 1, newVal := fun _ => 9, newRng := 5,
+                    newCoords := freshCoords, evict := fun _ => false, key := none }
+    let s0 : State := { val := fun _ => 0, refs := fun _ => [], rng := 7, cache := fun _ => none }
+    (run Gen.effTable s0 [a, { a with fn := "detector.rule07_dark_current", bind := [], res := some 2 },
+                          { a with fn := "wfe.power_spectrum", bind := [("mask", 0)], res := some 3 }]).rng = 7 := by
+  decide +kernel
+
 /-- what the cache holds, read off the source: the four vectors `_dft2_coords(m, n, M, N)` builds (regenerated `Gen.fwCoord0..3`)
 are `arange(len) − ⌊len/2⌋` of the four lengths, in the order (m, n, M, N) -/
 theorem fresh_coords_are_centred (m n M N : Int) :
@@ -213,6 +223,13 @@ theorem result_history_independent (ops : List Op) (s : State) (hs : CacheOK s)
     (h : ∀ op ∈ ops, (row? Gen.effTable op.fn).isSome) (k : Key) :
     lookup (run Gen.effTable s ops) k = freshCoords k :=
   lookup_of_ok _ (cache_invariant ops s hs h) k
+
+/-- repeating or interleaving Fourier calls: whatever happened in between, a call sees the coordinate vectors it saw before — the
+view of the cache is the same function of the key before and after any history of table functions -/
+theorem repeated_call_sees_same_coordinates (ops : List Op) (s : State) (hs : CacheOK s)
+    (h : ∀ op ∈ ops, (row? Gen.effTable op.fn).isSome) (k : Key) :
+    lookup (run Gen.effTable s ops) k = lookup s k := by
+  rw [result_history_independent ops s hs h k, lookup_of_ok s hs k]
 
 /-- **plane-state confluence** (composed with C04's `fit_tilt_history`, proved there over the regenerated tilt-fit model): two
 histories of OPD updates and tilt fits — in any order and number, whatever coefficients the solver returned — that start from
